@@ -23,6 +23,17 @@ all or in all bins; all scales are powers of two, so the float64 sums stay exact
 The estimator must depend only on which members are present (Props: C04_ls_for_any_rr, C04_estimate_scale_invariant,
 C04_threshold_fallback_refuted); a value that is the estimator for absent rr although rr is present is reported as such
 (Model: ignores_rr, c04_corr_case_x bit 4).
+(e) real measurements (props/c04_meas.py): the CorrFuncs that yaw.crosscorrelate / yaw.autocorrelate return for small real
+catalogs (2-4 patches, isolated fields and linked neighbours, a sparse reference sample with empty (patch, bin) cells, bins
+empty in every patch, objects on edges and outside the binning, dyadic weights or no weight column, reference randoms only /
+unknown randoms only / both, CorrFuncs made of a subset of the measured pair counts, autocorrelations with and without RR, one or
+two scales) are sampled and CorrFunc.sample().data / .samples and RedshiftData.from_corrfuncs(...).data / .samples are compared in
+Coq with the model evaluated on the MEASURED pair counts and on weights computed inside Coq from the catalogs' RECORDS
+(closed-side rule per bin for a side read with the binning, the whole catalog in every bin for the unknown side of a
+cross-correlation, half the squared total for autocorrelations): "the two samples' total weights" is a quantity of the catalogs
+that were paired, not of what the CorrFunc stores (Model: meas_pc, c04_meas_case, c04_meas_nz_case; Props:
+C04_sample_total_any_patches, C04_measured_denominator_cross / _auto, C04_term_determines_denominator,
+C04_skip_empty_agrees_populated / _refuted).
 (b) symbolic traces of landy_szalay, davis_peebles, NormalisedCounts.sample_patch_sum,
 RedshiftData.from_corrdata, HistData.normalised, RedshiftData.normalised are re-proved equal to
 the documented formulas by `ring` (numerator / denominator / radicand separately) on every run.
@@ -33,6 +44,7 @@ import numpy as np
 
 from lib import floatq as fq
 from props import _jk_common as jk
+from props import c04_meas
 
 ALLOWED_AXIOMS = ["sig_forall_dec", "sig_not_dec", "functional_extensionality_dep", "classic"]  # only under C04_nz_sqrt_form / _unique (reals)
 TRUSTED = [
@@ -41,12 +53,22 @@ TRUSTED = [
     "numpy kernels (einsum, sqrt, nansum, tile) are exercised, not modelled; the square root is checked in squared form "
     "(nz^2 dz^2 w_ss w_pp = w_sp^2 within 2^-47 relative, sign of w_sp) on exact rational values of the implementation's floats",
     "estimator values are compared with the forward error bound 2^-48 * (|dd|+|dr|+|rd|+|rr|)/|rr| (resp. (|dd|+|mixed|)/|mixed|)",
+    "measurements: the pair counts themselves (which pairs lie inside the scale cut) are taken from the measurement (C01 is about them); "
+    "n(z) of measured CorrFuncs is compared with the exact model values in squared form with the first-order bound "
+    "4 (2|a| e_a + e_a^2 + a^2 (e_s/|s| + e_p/|p|) + 4 * 2^-48 a^2), e = 2^-48 * forward scale of the estimator; python-side bin membership "
+    "(c04_meas.gen_member) shapes and labels generated inputs and words the reports, never a verdict",
 ]
 ASSUMPTIONS = [
     "where an exact denominator is zero (or the radicand is not positive) the documented formula is undefined: the "
     "implementation's non-finite output is accepted and nothing else is compared",
     "combinations of pair counts for which the code defines no estimator (rr without dr) are compared only as 'raises'",
     "RedshiftData.normalised(target=...) (a scipy fit) is not covered",
+    "measurements: the records handed to the model are the rows handed to Catalog.from_dataframe grouped by their named patch (C02: the "
+    "catalog stores exactly these), patch ids 0..P-1; redshifts, edges and weights are dyadic rationals with few bits and rweight is off, so "
+    "pair counts and weight sums are exact; every binned sample holds at least one object inside the binning in every patch (otherwise the "
+    "pinned commit stops at the build_trees defect that C10 probes) and its objects are placed symmetrically about the patch centre with "
+    "equal weights so that the implementation's patch-consistency check accepts the catalogs; a refusal (InconsistentPatchesError) is "
+    "counted, not reported, and more than 20% refusals break an obligation; max_workers = 1 (the order of arrival of patch-pair results is C10's)",
     "call histories consist of the public methods listed in _jk_common.CF_OBS / SD_OBS with valid arguments and of "
     "set_patch_pair with in-range patch indices and one value per bin; arrays handed out by the containers are only "
     "read by the harness, never written; a call that raises is recorded and skipped",
@@ -56,7 +78,10 @@ RULE = ("cases = (subset of dr/rd/rr, auto|cross, bins, patches, all array entri
         "denominator is non-zero so that the full formula is compared (for 'raises' cases: always); history cases are "
         "additionally distinct by the list of calls made before the compared call; magnitude cases (kind label .../mag:<profile>) "
         "are the same kinds of case on power-of-two scaled arrays, the histogram rr-magnitude/* says which decades of the "
-        "normalised rr were reached")
+        "normalised rr were reached; measurement cases (kind meas/...) = (closed side, edges, patch centre gaps, scales, per sample: weight "
+        "column, per-patch (redshift, weight, offset) lists, which CorrFunc of the measurement, which of its pair counts), one evaluation per "
+        "CorrFunc and one per redshift estimate; non-trivial when the output is finite and some (patch, bin) cell is empty in one sample of a "
+        "container and populated in its partner (the inputs on which a stored weight could depend on the partner sample)")
 
 
 def est_defined(sub):
@@ -691,7 +716,9 @@ def run(ctx):
     b_nzh = jk.Batch(ctx, "Cases_C04_nz_hist", shard=40)
     b_normh = jk.Batch(ctx, "Cases_C04_norm_hist", shard=80)
     histories(ctx, b_hist, b_nzh, b_normh)
-    batches = (b_corr, b_nz, b_norm, b_hist, b_nzh, b_normh)
+    ctx.log("hand-built containers and histories done")
+    b_meas, b_meas_nz = c04_meas.run_measured(ctx)
+    batches = (b_corr, b_nz, b_norm, b_hist, b_nzh, b_normh, b_meas, b_meas_nz)
     ctx.log("implementation runs done; evaluating %d cases in Coq" % sum(len(b.items) for b in batches))
     for b in batches:
         b.run()
@@ -700,6 +727,9 @@ def run(ctx):
 
 def replay(ctx, body):
     r = body.get("replay", body)
+    if r.get("kind") == "meas":
+        c04_meas.replay(ctx, r)
+        return
     spec, kind = r["spec"], r["kind"]
     b, bn = jk.Batch(ctx, "Replay_C04"), jk.Batch(ctx, "Replay_C04_norm")
     if kind == "corr":
